@@ -43,7 +43,8 @@ const sitePkgs = "usr/lib/python3/dist-packages"
 
 var extDefs = []extDef{
 	{Name: "chrome/extensions", Dir: "misc/chrome/extensions", Tree: true, Skip: `_locales/`,
-		Tmpl: []string{"home/user/.config/google-chrome/Default/Extensions/{rel}", "home/user/.config/chromium/Default/Extensions/abcdefghijklmnopabcdefghijklmnop/{i}.0_0/manifest.json"}},
+		Tmpl: []string{"home/user/.config/google-chrome/Default/Extensions/{rel}", "home/user/.config/chromium/Default/Extensions/{rel}",
+			"home/user/.config/google-chrome-beta/Default/Extensions/{rel}", "home/user/.config/chromium/Default/Extensions/abcdefghijklmnopabcdefghijklmnop/{i}.0_0/manifest.json"}},
 	{Name: "containers/containerd", Dir: "containers/containerd", Skip: `^(metadata_|state|status|shim|invalid_status)`,
 		Tmpl: []string{"var/lib/containerd/io.containerd.metadata.v1.bolt/meta.db"}},
 	{Name: "cpp/conanlock", Dir: "language/cpp/conanlock", Tmpl: []string{"{d}/conan.lock"}},
